@@ -111,7 +111,7 @@ fn run_plain(prog: &Prog, events: &[Event]) -> Vec<Event> {
 // scheduled runs of the real orchestrator
 
 struct Run {
-    cap: usize,
+    ingress_blocked: std::cell::Cell<bool>,
     orch: Option<ContextOrchestrator>,
     out_rx: mpsc::Receiver<Event>,
     names: Vec<String>,
@@ -143,7 +143,7 @@ fn build(prog: &Prog, cap: usize, checkpointing: bool, recovery: Option<&Checkpo
             other => infra(&format!("context {n} did not reach its loop: {other:?}")),
         }
     }
-    Run { cap, orch: Some(orch), out_rx, names, store }
+    Run { ingress_blocked: std::cell::Cell::new(false), orch: Some(orch), out_rx, names, store }
 }
 
 impl Run {
@@ -235,29 +235,23 @@ fn pick(ctx: &mut Ctx, run: &Run, pol: &Policy, ingress_has: bool) -> Option<usi
 
 /// one scheduler step; returns false when nothing can move
 fn sched_step(ctx: &mut Ctx, run: &Run, pol: &Policy, inputs: &[Event], next_in: &mut usize) -> bool {
-    // the ingress can move when the inbox its next event is routed to has room; now and then it
-    // also tries a full inbox (the caller gets `ChannelFull` back and retries later)
-    let mut ingress = *next_in < inputs.len();
-    if ingress {
-        let orch = run.orch.as_ref().unwrap();
-        if let Some(target) = orch.ingress_routing().get(&*inputs[*next_in].event_type) {
-            let others = run.names.iter().any(|n| run.enabled(n));
-            if vc::inbox_len(target) >= run.cap && !(others && ctx.rng.chance(1, 10)) {
-                ingress = false;
-            }
-        }
-    }
+    // the ingress can move unless its last attempt met a full inbox and no context has moved since
+    // (the caller got `ChannelFull` back and retries later)
+    let ingress = *next_in < inputs.len() && !run.ingress_blocked.get();
     match pick(ctx, run, pol, ingress) {
         None => false,
         Some(0) => {
             let ev = Arc::new(inputs[*next_in].clone());
             if run.orch.as_ref().unwrap().try_process(ev).is_ok() {
                 *next_in += 1;
+            } else {
+                run.ingress_blocked.set(true);
             }
             true
         }
         Some(a) => {
             run.step(&run.names[a - 1]);
+            run.ingress_blocked.set(false);
             true
         }
     }
